@@ -64,6 +64,12 @@ func workerEnv() *env.Env {
 		}
 		return nil
 	})
+	e.Define("boomv", func(xs ...interface{}) interface{} {
+		if len(xs) > 0 {
+			panic(fmt.Sprintf("boomv(%d args)", len(xs)))
+		}
+		return nil
+	})
 	e.Define("arr", func(a [2]int64) int64 { return a[0] })
 	e.Define("takesInt", func(i int64, s string) string { return s })
 	e.Define("takesStrs", func(s ...string) int { return len(s) })
